@@ -752,7 +752,7 @@ _EMIT_WHAT = st.one_of(
 )
 _EM = st.builds(lambda a, w: {"k": "emit", "at": a, "what": w}, st.integers(0, 3), _EMIT_WHAT)
 REENTRANT_BEHAVIOURS = st.one_of(_PLAIN, _US, _EM)
-_RS = st.builds(lambda a: {"k": "raise", "at": a}, st.integers(0, 3))
+_RS = st.builds(lambda a: {"k": "raise", "at": a}, st.sampled_from([0, 0, 0, 1, 1, 2, 3]))
 _SUB = st.builds(lambda b: ["sub", b], BEHAVIOURS)
 _SUB_RAISE = st.builds(lambda b: ["sub", b], st.one_of(_PLAIN, _RS))
 _SUB_RE = st.builds(lambda b: ["sub", b], REENTRANT_BEHAVIOURS)
